@@ -60,7 +60,9 @@ def lattice():
             for oi in range(len(OCC)):
                 if di == 6 and oi > 5:
                     continue  # coincident atoms: the first six occupancy pairs
-                for place in ("same-residue", "same-chain", "other-chain"):
+                for place in ("same-residue", "same-chain", "other-chain", "same-identity"):
+                    if place == "same-identity" and (oi > 2 or di not in (0, 2, 5)):
+                        continue  # a second copy of the residue under the same identifiers (symmetry mate / assembly copy): a reduced sub-lattice
                     if same and place == "same-residue":
                         continue
                     for partner in ("nucleotide", "group"):
@@ -140,7 +142,7 @@ def make_atoms(case):
                 occ = o1
             atoms.append((a[0], a[1], a[2], a[3], xyz, occ))
         return atoms
-    chain2, num2 = ("A", 2) if case["place"] == "same-chain" else ("B", 1)
+    chain2, num2 = ("A", 2) if case["place"] == "same-chain" else (("A", 1) if case["place"] == "same-identity" else ("B", 1))
     if case["partner"] == "nucleotide":
         src = [(n, np.array([x, y, z])) for n, x, y, z, el in g["atoms"]]
         # point-reflect the partner through its own probe atom so that it extends away from residue 1
@@ -156,7 +158,8 @@ def make_atoms(case):
     for a in res1:
         atoms.append((a[0], a[1], a[2], a[3], a[4], o1 if a[3] == n1 else a[5]))
     for a in res2:
-        atoms.append((a[0], a[1], a[2], a[3], a[4], o2 if a[3] == n2 else a[5]))
+        # eighth element: copy number - two residues with identical identifiers are still two residues (grouping key only)
+        atoms.append((a[0], a[1], a[2], a[3], a[4], o2 if a[3] == n2 else a[5], None, 1 if case["place"] == "same-identity" else 0))
     return atoms
 
 
@@ -172,13 +175,13 @@ def to_residues(atoms):
 
     groups = []
     for a in atoms:
-        key = (a[0], a[1], a[2], a[6] if len(a) > 6 else None)
+        key = (a[0], a[1], a[2], a[6] if len(a) > 6 else None, a[7] if len(a) > 7 else 0)
         if groups and groups[-1][0] == key:
             groups[-1][1].append(a)
         else:
             groups.append((key, [a]))
     res = []
-    for (chain, num, rn, icode), ats in groups:
+    for (chain, num, rn, icode, _copy), ats in groups:
         auth = ResidueAuth(chain, num, icode, rn)
         al = tuple(Atom(None, None, auth, 1, a[3], float(a[4][0]), float(a[4][1]), float(a[4][2]), a[5]) for a in ats)
         res.append(Residue3D(None, auth, 1, rn if len(rn) == 1 else "?", al))
